@@ -1014,7 +1014,7 @@ func (o *oracle) expect(m, path string) *expectation {
 				// handler overrides the path and the rest of the chain is the later-registered
 				// routes matching the new path
 				// the handler compares c.Path(), the decoded path without query, with its page
-				if o.p.Cfg.Unescape && strings.ContainsAny(path+orig, "%+") || strings.ContainsAny(path+orig, "?#") {
+				if o.p.Cfg.Unescape && strings.ContainsAny(path+orig, "%+") || strings.ContainsAny(path+orig+h.Arg, "?#") {
 					ex.Ambiguous = true
 				}
 				if h.Arg == path {
@@ -1159,7 +1159,9 @@ func runDispatch(e *ev.Env) {
 			// the page to fall back to: some registered path, spelled out
 			t := p.Units[r.Intn(len(p.Units))]
 			last.Arg = fillSimple(r, p.fullPath(&t))
-			if t.Kind == "usenp" || last.Arg == "" || last.Arg[0] != '/' {
+			// (a page is a plain path: no query, fragment, escape or pattern character left over
+			// from an escaped pattern)
+			if t.Kind == "usenp" || last.Arg == "" || last.Arg[0] != '/' || strings.ContainsAny(last.Arg, "?#%+:*\\<>") {
 				last.Arg = fillSimple(r, genPath(r))
 			}
 			// requests that nothing is registered for, in the fallback page's index bucket and
